@@ -1,9 +1,10 @@
 /-
 crate `cabac` 0.6.0, src/vp8.rs: executable transcription of VP8Context, VP8Writer, VP8Reader.
 
-Needed only so that the model produces and consumes real correction BYTES (correspondence at byte
-level, model-as-writer for C04). Nothing is proved about the arithmetic here; the coder's
-losslessness is an explicit assumption of the trusted base (DESIGN.md §6).
+It makes the model produce and consume real correction BYTES (correspondence at byte level,
+model-as-writer for C04). `Proofs/VP8*.lean` prove it lossless (`vp8_lossless`: reading the written
+bytes back under the same context sequence returns the written bits, for every event list); the
+transcription itself is tied to the crate by the `codec` requests (bytes compared on every run).
 -/
 import Preflate.Model.Codec
 namespace Preflate.VP8
@@ -152,4 +153,17 @@ def readBits (bytes : Array UInt8) (ctxs : List (Option CtxId)) : List Bool :=
         (r, cs.set! i n, out.push b)) (Reader.new bytes, freshContexts, #[])
   out.toList
 
+/-- the decisions a decoder obtains from `bytes` when it asks for the contexts `ctxs` in turn -/
+def readEvents (bytes : Array UInt8) (ctxs : List (Option CtxId)) : List Ev :=
+  List.zipWith Ev.mk ctxs (readBits bytes ctxs)
+
 end Preflate.VP8
+
+namespace Preflate
+
+/-- PredictionEncoderCabac over VP8Writer, then `finish`: the correction BYTES of an operation list -/
+def encodeBytes (ops : List Op) : R (Array UInt8) := do
+  let evs ← encodeOps 0 ops
+  .ok (VP8.writeEvents evs)
+
+end Preflate
